@@ -6,7 +6,7 @@ Trace == ndJsonDeserialize(IOEnv.VERIF_TRACE)
 N == Len(Trace)
 VARIABLES l, bad, mach
 vars == <<l, bad, mach>>
-Tok(e) == [prefix |-> e.c.prefix, segs |-> e.c.segs, ref |-> e.c.ref]
+Tok(e) == [prefix |-> e.c.prefix, segs |-> e.c.segs, ref |-> e.c.ref, trail |-> e.c.trail]
 WellFormed(e) == e.c.spelled = Spell(Tok(e))           \* harness and spec agree on the input string
 EventOK(e) ==
     /\ ~e.panic
